@@ -92,10 +92,14 @@ HRun == /\ pc = "h_run"
 Failing(s) == s.out.kind # "ok"
 \* "ctxwrap": a coded error whose cause wraps a context error keeps its own code (error.go wrapIfContextError)
 \* "badsend": the codec refuses to marshal the next response message: internal, before any byte of it is written
+\* keys of the protocol itself in an error's metadata (a proxying handler passing on an error it received) are the
+\* protocol's to set: the response still carries exactly one status -- the error's own
+ReservedKeys == {"Grpc-Status", "Grpc-Message", "Grpc-Status-Details-Bin"}
+UserMeta(m) == SelectSeq(m, LAMBDA h : h.k \notin ReservedKeys)
 ErrOf(s) == IF s.out.kind = "badsend" THEN [code |-> 13, msg |-> "library", ndet |-> 0, meta |-> <<>>]
             ELSE IF s.out.kind = "plain" THEN [code |-> 2, msg |-> s.out.msg, ndet |-> 0, meta |-> <<>>]
             ELSE [code |-> s.out.code, msg |-> IF s.out.kind = "ctxwrap" THEN "ctx:" \o s.out.msg ELSE s.out.msg,
-                  ndet |-> s.out.ndet, meta |-> s.out.meta]
+                  ndet |-> s.out.ndet, meta |-> UserMeta(s.out.meta)]
 NSent(s) == IF ~Failing(s) THEN Len(s.resp)
             ELSE IF Streamy(s) THEN Min2(s.out.after, Len(s.resp)) ELSE 0
 \* header and trailer metadata the handler program manages to attach
